@@ -331,4 +331,179 @@ theorem wind_mirrorX_offBoundary (ps : Paths) (p : Pt) (h : ∀ path ∈ ps, onB
     wind (mapPaths mirX ps) (mirX p) = -wind ps p :=
   wind_mirrorX ps p (offSpan_of_not_onBoundary h)
 
+/-! ### transposition `x ↔ y`: the winding number does not depend on the direction of the ray
+
+`transpose` turns the ray towards +x (half-open in y) into the ray towards +y (half-open in x) and reverses
+orientation.  That both rays count the same winding number is not an edge-by-edge fact: the two counts of one edge
+differ by the increment of a *potential* — the indicator of the open quadrant between the two rays — so the difference
+telescopes to zero around a closed path (`edges_telescope`). -/
+
+def transposePt (a : Pt) : Pt := ⟨a.y, a.x⟩
+def transpose (ps : Paths) : Paths := mapPaths transposePt ps
+
+/-- Contribution of the directed edge `a → b` to the winding number around `p` counted on the ray towards **+y**
+(half-open rule in x: an edge owns its left end point, not its right one); counter-clockwise positive as `crossing`. -/
+def crossingV (p a b : Pt) : Int :=
+  if b.x ≤ p.x ∧ p.x < a.x then (if cross a b p > 0 then 1 else 0)
+  else if a.x ≤ p.x ∧ p.x < b.x then (if cross a b p < 0 then -1 else 0)
+  else 0
+
+/-- winding number of a closed path counted on the vertical ray -/
+def windPathV (path : Path) (p : Pt) : Int := ((edgesOf path).map (fun e => crossingV p e.1 e.2)).sum
+def windV (ps : Paths) (p : Pt) : Int := (ps.map (fun path => windPathV path p)).sum
+
+/-- 1 in the open quadrant right of and above `p` (the sector swept counter-clockwise from the ray towards +x to the
+ray towards +y; points on either ray are outside, matching the two half-open rules) -/
+def quadI (p v : Pt) : Int := if p.x < v.x ∧ p.y < v.y then 1 else 0
+
+theorem cross_transpose (a b p : Pt) : cross (transposePt a) (transposePt b) (transposePt p) = -cross a b p := by
+  simp only [cross, transposePt]; grind
+
+/-- transposing the picture is counting on the vertical ray, with the orientation reversed (an identity of definitions) -/
+theorem crossing_transpose (p a b : Pt) : crossing (transposePt p) (transposePt a) (transposePt b) = -crossingV p a b := by
+  unfold crossing crossingV
+  rw [cross_transpose]
+  simp only [transposePt]
+  by_cases h1 : a.x ≤ p.x ∧ p.x < b.x
+  · have n : ¬ (b.x ≤ p.x ∧ p.x < a.x) := by omega
+    simp only [h1, n, and_self, if_true, if_false]
+    split <;> split <;> omega
+  · by_cases h2 : b.x ≤ p.x ∧ p.x < a.x
+    · simp only [h1, h2, and_self, if_true, if_false]
+      split <;> split <;> omega
+    · simp only [h1, h2, if_false]; rfl
+
+/-- the nine sign patterns of two factors with the sign of the product -/
+theorem prod_cases (x y : Int) :
+    (x < 0 ∧ y < 0 ∧ 0 < x * y) ∨ (x < 0 ∧ y = 0 ∧ x * y = 0) ∨ (x < 0 ∧ 0 < y ∧ x * y < 0) ∨
+    (x = 0 ∧ y < 0 ∧ x * y = 0) ∨ (x = 0 ∧ y = 0 ∧ x * y = 0) ∨ (x = 0 ∧ 0 < y ∧ x * y = 0) ∨
+    (0 < x ∧ y < 0 ∧ x * y < 0) ∨ (0 < x ∧ y = 0 ∧ x * y = 0) ∨ (0 < x ∧ 0 < y ∧ 0 < x * y) := by
+  rcases Int.lt_trichotomy x 0 with hx | hx | hx <;> rcases Int.lt_trichotomy y 0 with hy | hy | hy
+  · exact Or.inl ⟨hx, hy, Int.mul_pos_of_neg_of_neg hx hy⟩
+  · exact Or.inr (Or.inl ⟨hx, hy, by rw [hy, Int.mul_zero]⟩)
+  · exact Or.inr (Or.inr (Or.inl ⟨hx, hy, Int.mul_neg_of_neg_of_pos hx hy⟩))
+  · exact Or.inr (Or.inr (Or.inr (Or.inl ⟨hx, hy, by rw [hx, Int.zero_mul]⟩)))
+  · exact Or.inr (Or.inr (Or.inr (Or.inr (Or.inl ⟨hx, hy, by rw [hx, Int.zero_mul]⟩))))
+  · exact Or.inr (Or.inr (Or.inr (Or.inr (Or.inr (Or.inl ⟨hx, hy, by rw [hx, Int.zero_mul]⟩)))))
+  · exact Or.inr (Or.inr (Or.inr (Or.inr (Or.inr (Or.inr (Or.inl ⟨hx, hy, Int.mul_neg_of_pos_of_neg hx hy⟩))))))
+  · exact Or.inr (Or.inr (Or.inr (Or.inr (Or.inr (Or.inr (Or.inr (Or.inl ⟨hx, hy, by rw [hy, Int.mul_zero]⟩)))))))
+  · exact Or.inr (Or.inr (Or.inr (Or.inr (Or.inr (Or.inr (Or.inr (Or.inr ⟨hx, hy, Int.mul_pos hx hy⟩)))))))
+
+/-- the local lemma in coordinates relative to `p` (`u`, `v` = x, y of `a − p` and `b − p`): 81 sign patterns, each linear -/
+theorem crossing_core (u1 v1 u2 v2 : Int)
+    (hoff : ¬ (u1 * v2 - u2 * v1 = 0 ∧ min u1 u2 ≤ 0 ∧ 0 ≤ max u1 u2 ∧ min v1 v2 ≤ 0 ∧ 0 ≤ max v1 v2)) :
+    (if v1 ≤ 0 ∧ 0 < v2 then (if u1 * v2 - u2 * v1 > 0 then 1 else 0)
+      else if v2 ≤ 0 ∧ 0 < v1 then (if u1 * v2 - u2 * v1 < 0 then -1 else 0) else 0)
+    - (if u2 ≤ 0 ∧ 0 < u1 then (if u1 * v2 - u2 * v1 > 0 then 1 else 0)
+      else if u1 ≤ 0 ∧ 0 < u2 then (if u1 * v2 - u2 * v1 < 0 then -1 else 0) else (0:Int))
+    = (if 0 < u2 ∧ 0 < v2 then 1 else 0) - (if 0 < u1 ∧ 0 < v1 then 1 else (0:Int)) := by
+  rcases prod_cases u1 v2 with ⟨h1, h2, h3⟩ | ⟨h1, h2, h3⟩ | ⟨h1, h2, h3⟩ | ⟨h1, h2, h3⟩ | ⟨h1, h2, h3⟩ | ⟨h1, h2, h3⟩ | ⟨h1, h2, h3⟩ | ⟨h1, h2, h3⟩ | ⟨h1, h2, h3⟩ <;>
+  rcases prod_cases u2 v1 with ⟨k1, k2, k3⟩ | ⟨k1, k2, k3⟩ | ⟨k1, k2, k3⟩ | ⟨k1, k2, k3⟩ | ⟨k1, k2, k3⟩ | ⟨k1, k2, k3⟩ | ⟨k1, k2, k3⟩ | ⟨k1, k2, k3⟩ | ⟨k1, k2, k3⟩ <;>
+  (generalize u1 * v2 = m1 at *; generalize u2 * v1 = m2 at *; omega)
+
+/-- `cross a b p` is the cross product of the vectors from `p` to `a` and from `p` to `b` -/
+theorem cross_rel (a b p : Pt) : cross a b p = (a.x - p.x) * (b.y - p.y) - (b.x - p.x) * (a.y - p.y) := by
+  simp only [cross]; grind
+
+/-- **The local lemma.**  For a segment that does not contain `p`, the count on the horizontal ray and the count on the
+vertical ray differ by the increment of the quadrant indicator. -/
+theorem crossing_sub_crossingV {a b p : Pt} (h : onSeg p a b = false) :
+    crossing p a b - crossingV p a b = quadI p b - quadI p a := by
+  have hoff : ¬ (cross a b p = 0 ∧ min a.x b.x ≤ p.x ∧ p.x ≤ max a.x b.x ∧ min a.y b.y ≤ p.y ∧ p.y ≤ max a.y b.y) := by
+    rintro ⟨h0, h1, h2, h3, h4⟩
+    simp [onSeg, h0, h1, h2, h3, h4] at h
+  rw [cross_rel] at hoff
+  have key := crossing_core (a.x - p.x) (a.y - p.y) (b.x - p.x) (b.y - p.y) (by
+    intro ⟨h0, h1, h2, h3, h4⟩; exact hoff ⟨h0, by omega, by omega, by omega, by omega⟩)
+  have e1 : (a.y - p.y ≤ 0 ∧ 0 < b.y - p.y) ↔ (a.y ≤ p.y ∧ p.y < b.y) := by omega
+  have e2 : (b.y - p.y ≤ 0 ∧ 0 < a.y - p.y) ↔ (b.y ≤ p.y ∧ p.y < a.y) := by omega
+  have e3 : (b.x - p.x ≤ 0 ∧ 0 < a.x - p.x) ↔ (b.x ≤ p.x ∧ p.x < a.x) := by omega
+  have e4 : (a.x - p.x ≤ 0 ∧ 0 < b.x - p.x) ↔ (a.x ≤ p.x ∧ p.x < b.x) := by omega
+  have e5 : (0 < b.x - p.x ∧ 0 < b.y - p.y) ↔ (p.x < b.x ∧ p.y < b.y) := by omega
+  have e6 : (0 < a.x - p.x ∧ 0 < a.y - p.y) ↔ (p.x < a.x ∧ p.y < a.y) := by omega
+  simp only [e1, e2, e3, e4, e5, e6] at key
+  unfold crossing crossingV quadI
+  rw [cross_rel]
+  exact key
+
+/-- **Ray-direction independence, one path.**  For a closed path and a point on none of its edges, the vertical ray
+counts the same winding number as the horizontal ray. -/
+theorem windPathV_eq_windPath (path : Path) (p : Pt) (h : onBoundary path p = false) :
+    windPathV path p = windPath path p := by
+  have hedge : ∀ e ∈ edgesOf path, crossingV p e.1 e.2 = crossing p e.1 e.2 - (quadI p e.2 - quadI p e.1) := by
+    intro e he
+    have hs : onSeg p e.1 e.2 = false := by
+      have := List.any_eq_false.mp h e he
+      simpa using this
+    have := crossing_sub_crossingV hs
+    omega
+  unfold windPathV windPath
+  rw [List.map_congr_left hedge, sum_map_sub, edges_telescope (quadI p)]
+  omega
+
+/-- **Ray-direction independence.**  For closed paths and a point on no edge, `windV` (ray towards +y, half-open in x)
+equals `wind` (ray towards +x, half-open in y). -/
+theorem windV_eq_wind (ps : Paths) (p : Pt) (h : ∀ path ∈ ps, onBoundary path p = false) : windV ps p = wind ps p := by
+  unfold windV wind
+  congr 1
+  apply List.map_congr_left
+  intro path hp
+  exact windPathV_eq_windPath path p (h path hp)
+
+/-- transposing a path and the point is counting on the vertical ray with the sign reversed (no hypothesis) -/
+theorem windPath_transposePt (path : Path) (p : Pt) :
+    windPath (path.map transposePt) (transposePt p) = -windPathV path p := by
+  unfold windPath windPathV
+  rw [edgesOf_map, List.map_map]
+  have : ∀ e ∈ edgesOf path,
+      ((fun e : Pt × Pt => crossing (transposePt p) e.1 e.2) ∘ fun e => (transposePt e.1, transposePt e.2)) e
+        = -1 * crossingV p e.1 e.2 := by
+    intro e _
+    simp only [Function.comp_def]
+    rw [crossing_transpose]; omega
+  rw [List.map_congr_left this, sum_map_mul_left]
+  omega
+
+theorem wind_transpose_eq_windV (ps : Paths) (p : Pt) : wind (transpose ps) (transposePt p) = -windV ps p := by
+  unfold wind windV transpose mapPaths
+  rw [List.map_map]
+  have : ∀ path ∈ ps, ((fun path => windPath path (transposePt p)) ∘ fun q => List.map transposePt q) path
+      = -1 * windPathV path p := by
+    intro path _
+    simp only [Function.comp_def]
+    rw [windPath_transposePt]; omega
+  rw [List.map_congr_left this, sum_map_mul_left]
+  omega
+
+/-- **Transposition `x ↔ y`** (orientation reversing): for every set of closed paths and every point that lies on no
+edge, the winding number of the transposed paths around the transposed point is the negative of the original one. -/
+theorem wind_transpose (ps : Paths) (p : Pt) (h : ∀ path ∈ ps, onBoundary path p = false) :
+    wind (transpose ps) (transposePt p) = -wind ps p := by
+  rw [wind_transpose_eq_windV, windV_eq_wind ps p h]
+
+/-- hence transposition keeps EvenOdd / NonZero fillings and exchanges Positive with Negative -/
+theorem inFill_transpose (ps : Paths) (p : Pt) (h : ∀ path ∈ ps, onBoundary path p = false) :
+    inFill .evenOdd (wind (transpose ps) (transposePt p)) = inFill .evenOdd (wind ps p) ∧
+    inFill .nonZero (wind (transpose ps) (transposePt p)) = inFill .nonZero (wind ps p) ∧
+    inFill .positive (wind (transpose ps) (transposePt p)) = inFill .negative (wind ps p) ∧
+    inFill .negative (wind (transpose ps) (transposePt p)) = inFill .positive (wind ps p) := by
+  rw [wind_transpose ps p h]; exact inFill_neg _
+
+/-- non-vacuity: a self-overlapping path (winding number 2 at the point) and a second path around it; the point is level
+with vertices in x and in y and lies on the supporting line of an edge, but on no edge -/
+example :
+    (∀ path ∈ ([[⟨0,0⟩, ⟨6,0⟩, ⟨6,6⟩, ⟨0,6⟩, ⟨0,0⟩, ⟨4,0⟩, ⟨4,4⟩, ⟨0,4⟩], [⟨1,1⟩, ⟨3,2⟩, ⟨9,2⟩, ⟨9,9⟩, ⟨1,9⟩]] : Paths),
+      onBoundary path ⟨2, 2⟩ = false) ∧
+    wind [[⟨0,0⟩, ⟨6,0⟩, ⟨6,6⟩, ⟨0,6⟩, ⟨0,0⟩, ⟨4,0⟩, ⟨4,4⟩, ⟨0,4⟩], [⟨1,1⟩, ⟨3,2⟩, ⟨9,2⟩, ⟨9,9⟩, ⟨1,9⟩]] ⟨2, 2⟩ = 3 ∧
+    wind (transpose [[⟨0,0⟩, ⟨6,0⟩, ⟨6,6⟩, ⟨0,6⟩, ⟨0,0⟩, ⟨4,0⟩, ⟨4,4⟩, ⟨0,4⟩], [⟨1,1⟩, ⟨3,2⟩, ⟨9,2⟩, ⟨9,9⟩, ⟨1,9⟩]])
+      (transposePt ⟨2, 2⟩) = -3 := by decide
+
+/-- the hypothesis cannot be dropped: a point on the diagonal edge of a triangle counts as outside for the horizontal
+ray (the edges to its right own it) and as inside for the vertical one -/
+example : wind (transpose [[⟨0,0⟩, ⟨4,4⟩, ⟨0,4⟩]]) (transposePt ⟨2, 2⟩) ≠ -wind [[⟨0,0⟩, ⟨4,4⟩, ⟨0,4⟩]] ⟨2, 2⟩ := by
+  decide
+
+/-- the two counts of a single edge do differ (it is only the sum around a closed path that agrees) -/
+example : crossing ⟨0,0⟩ ⟨1,-1⟩ ⟨1,1⟩ = 1 ∧ crossingV ⟨0,0⟩ ⟨1,-1⟩ ⟨1,1⟩ = 0 := by decide
+
 end Clipper.Props.C13Spec
